@@ -15,6 +15,8 @@ import traceback
 VERIF = os.path.dirname(os.path.dirname(os.path.abspath(__file__)))
 REPO = os.environ.get("VERIF_REPO", "/repo")
 sys.path.insert(0, VERIF)
+if REPO not in sys.path:
+    sys.path.insert(1, REPO)
 
 from symx import core  # noqa: E402
 
